@@ -77,4 +77,38 @@ theorem getMatch_is_definition_any_predicate (steps : Array (Step J)) (src : Src
   · intro x hx hr
     exact raises_x steps src hp limit freshIter st' [] [] evs x (.nil _) hr hx
 
+/-- what `get` answers when the definition's answer is `ans` -/
+def getOf (isNested : Bool) (d : Default J) (ans : List (MNode J)) : Except ApiErr (J × Nat) :=
+  match ans.head? with
+  | some n => .ok (n.data, 0)
+  | none =>
+    match d with
+    | .notSet => .error (if isNested then .nestedMatchNotFound else .matchNotFound)
+    | .const v => .ok (v, 0)
+    | .callable f => .ok (f (), 1)
+
+/-- **`get` is a projection of the definition** — one equation, end to end: whenever the first
+`next()` of the underlying iterator comes back with a result or with `StopIteration` (quiet
+paths on JSON trees within the step budget always do), `get(expr, data, default)` is the data
+of the head of the definition's answer, and the default (constant, or callable called exactly
+once, or `MatchNotFoundError` / `NestedMatchNotFoundError`) exactly when that answer is empty —
+whatever the value found: a falsy first result never falls through to the default -/
+theorem get_is_projection_of_definition (steps : Array (Step J)) (src : Src J) (hq : Quiet steps.toList)
+    (hp : PredsClean steps) (cx : Ctx J) (hv : cx.view = J.view) (d : Default J)
+    (st' : St J) (evs : List (Ev J)) (sig : Sig J)
+    (hn : next cx.view steps src cx.limit freshIter = (st', evs, sig))
+    (hs : sig = .stop ∨ ∃ n, sig = .result n) :
+    get cx steps src d = getOf src.isNested d (eval steps.toList src.rootNode) := by
+  have H := getMatch_is_head_of_eval steps src hq hp cx hv st' evs
+  rcases hs with rfl | ⟨n, rfl⟩
+  · have he := H.2 hn
+    rw [he]
+    cases d <;> simp [get, getMatch, nextOut, hn, getOf]
+  · have he := H.1 n hn
+    cases d <;> simp [get, getMatch, nextOut, hn, getOf, he]
+
+/-- the premises are met and the falsy case is real: `get(path.a, {"a": 0}, default=7)` is `0` -/
+example : getOf false (.const (.int 7)) [MNode.child (.root (.obj [("a", .int 0)])) (.key "a") (.int 0)]
+    = .ok (.int 0, 0) := rfl
+
 end Treepath.C05
